@@ -1,5 +1,5 @@
 SHARDING = {"dir": "adder/sharding", "pkgname": "sharding"}
-FILES = ["adder_sharding/c13_rig_test.go", "adder_sharding/c13_synth_test.go", "adder_sharding/c13_files_test.go", "adder_sharding/c13_shape_test.go"]
+FILES = ["adder_sharding/c13_rig_test.go", "adder_sharding/c13_synth_test.go", "adder_sharding/c13_files_test.go", "adder_sharding/c13_shape_test.go", "adder_sharding/c13_tree_test.go"]
 
 SPEC = {
     "go": [
@@ -8,6 +8,8 @@ SPEC = {
         dict(SHARDING, files=FILES, test="TestVerifC13Single", n_quick=200, n_thorough=15000, shards_quick=2, shards_thorough=8,
              timeout_quick=600, timeout_thorough=3000),
         dict(SHARDING, files=FILES, test="TestVerifC13Files", n_quick=60, n_thorough=3000, shards_quick=4, shards_thorough=12,
+             timeout_quick=600, timeout_thorough=3000),
+        dict(SHARDING, files=FILES, test="TestVerifC13Tree", n_quick=120, n_thorough=5000, shards_quick=4, shards_thorough=12,
              timeout_quick=600, timeout_thorough=3000),
         dict(SHARDING, files=FILES, test="TestVerifC13Shape", n_quick=160, n_thorough=6000, shards_quick=4, shards_thorough=12,
              timeout_quick=600, timeout_thorough=3000),
